@@ -1,30 +1,40 @@
 (* C15 -- FFTW adaptor equals the direct DFT on any strided views and dimension subset.
    This file holds only the property theorems, each closed by `exact`, with Print Assumptions.
-   Model: Model/FftwPlan.v (the adaptor's plan builder and front ends, following fftw.hpp),
+   Model: Model/FftwPlan.v (the adaptor's plan builder and front ends, following fftw.hpp; FFTW's planner
+                            flags and what the manual says about them; base() vs origin()),
           Model/FftwDft.v  (mdft = what FFTW documents a plan computes; dftN = the direct DFT along
-                            the masked dimensions; memory; running the external calls).
+                            the masked dimensions; memory; running the external calls, planning included).
    The ring of complex numbers, the twiddle factor tw s n k = exp(s 2 pi i k/n), FFTW's executor
-   fftw_exec and the two assumptions about the outside world (guru_contract: FFTW does what its
-   manual says on its documented domain; tw_orthogonal: one-dimensional DFT inversion) are
-   explicit parameters / premises of the statements below. *)
+   fftw_exec, FFTW's planner fftw_plan_effect and the three assumptions about the outside world
+   (guru_contract: executing a plan does what the manual says on its documented domain; plan_contract:
+   CREATING a plan does not write to the arrays when the flags contain FFTW_ESTIMATE or FFTW_WISDOM_ONLY --
+   nothing is assumed for other flags; tw_orthogonal: one-dimensional DFT inversion) are explicit
+   parameters / premises of the statements below.
+   Views have ANY index base: lwf (Proofs/FftwBaseProofs.v) asks of every dimension only that a non-empty
+   one has offset = first index * stride and that the extension has size() indices; it holds for every
+   layout the library builds (over based extensions, reindexed, blocked, ...) and for every zero-based
+   layout whatever its strides.  in_extl l idx: idx lies in the extensions of l; firsts l: the first index
+   of every extension; footprint_x v: the addresses of v's elements by v's own bracket arithmetic. *)
 From Coq Require Import Permutation Ring.
-From BM Require Import Base.Tactics Model.Layout Model.View Model.Spec Model.FftwPlan Model.FftwDft
-  Proofs.LayoutProofs Proofs.FftwPlanProofs Proofs.FftwViewProofs Proofs.FftwDftProofs.
+From BM Require Import Base.Tactics Model.Layout Model.View Model.Spec Model.Rebase Model.FftwPlan Model.FftwDft
+  Proofs.LayoutProofs Proofs.IterProofs Proofs.RebaseProofs
+  Proofs.FftwPlanProofs Proofs.FftwViewProofs Proofs.FftwDftProofs Proofs.FftwBaseProofs.
 Local Open Scope Z_scope.
 
-(* For every rank, mask, sizes and strides: the dims / howmany_dims the adaptor hands to
+(* For every rank, mask, sizes, strides and index bases: the dims / howmany_dims the adaptor hands to
    fftw_plan_guru64_dft visit exactly the index set of the view, split by the mask, each index once,
-   at the input view's and the output view's own addresses. *)
+   at the input view's and the output view's own addresses counted from their FIRST elements
+   (view_cells_x: position k <-> index tuple k + firsts).  The tensor depends on sizes and strides only. *)
 Theorem C15_plan_denotes_view_dft :
   forall (which : list bool) (vin vout : view),
     length which = length (lay vin) -> length (lay vout) = length (lay vin) ->
-    zero_based (lay vin) -> zero_based (lay vout) ->
+    lwf (lay vin) -> lwf (lay vout) -> l_sizes (lay vout) = l_sizes (lay vin) ->
     let '(dims, hdims) := plan_of which (l_sizes (lay vin)) (l_strides (lay vin)) (l_strides (lay vout)) in
-       Permutation (guru_cells dims hdims) (view_cells which vin vout)
+       Permutation (guru_cells dims hdims) (view_cells_x which vin vout)
     /\ map io_n dims = select which (l_sizes (lay vin))
     /\ map io_n hdims = select (map negb which) (l_sizes (lay vin))
     /\ length dims = count_occ bool_dec which true.
-Proof. exact C15_plan_denotes_view_dft_proved. Qed.
+Proof. exact C15_plan_denotes_view_dft_x_proved. Qed.
 Print Assumptions C15_plan_denotes_view_dft.
 
 (* The locations the plan writes are exactly the elements of the output view, the locations it
@@ -32,23 +42,39 @@ Print Assumptions C15_plan_denotes_view_dft.
 Theorem C15_output_frame :
   forall (which : list bool) (vin vout : view) (s : Z),
     length which = length (lay vin) -> length (lay vout) = length (lay vin) ->
-    zero_based (lay vin) -> zero_based (lay vout) ->
-    l_sizes (lay vout) = l_sizes (lay vin) ->
-    let g := fftw_plan_dft which (base vin) (lay vin) (base vout) (lay vout) s in
-       Permutation (plan_out_addresses g) (footprint vout)
-    /\ Permutation (plan_in_addresses g) (footprint vin)
-    /\ (forall a, In a (plan_out_addresses g) <->
-                  exists idx, valid_idx (l_sizes (lay vout)) idx /\ a = v_addr vout idx).
-Proof. exact C15_output_frame_proved. Qed.
+    lwf (lay vin) -> lwf (lay vout) -> l_sizes (lay vout) = l_sizes (lay vin) ->
+    let g := plan_ctor which (base vin) (lay vin) (base vout) (lay vout) s in
+       Permutation (plan_out_addresses g) (footprint_x vout)
+    /\ Permutation (plan_in_addresses g) (footprint_x vin)
+    /\ (forall a, In a (plan_out_addresses g) <-> exists idx, in_extl (lay vout) idx /\ a = v_addr vout idx).
+Proof. exact C15_output_frame_x_proved. Qed.
 Print Assumptions C15_output_frame.
 
-(* The structural hypotheses above hold for every view the property quantifies over: views obtained
-   from a zero-based array by sub-blocks (sliced), strides, rotations, transpositions, reversals. *)
+(* The structural hypothesis holds for every view the property quantifies over: views obtained from an
+   array over ANY index extensions by sub-blocks (sliced, blocked), strides, rotations, transpositions,
+   reversals and re-indexing ... *)
 Theorem C15_reachable_views :
-  forall sz ops v, Forall c15_op ops -> run_ops ops (root_view (zb sz)) = Some v ->
-    zero_based (lay v) /\ length (lay v) = length sz.
-Proof. exact C15_reachable_views_proved. Qed.
+  forall exts ops v, Forall (fun r => fst r <= snd r) exts -> Forall c15_op_x ops ->
+    run_safe ops (root_view exts) = true -> run_ops ops (root_view exts) = Some v ->
+    lwf (lay v) /\ length (lay v) = length exts.
+Proof. exact C15_reachable_views_x_proved. Qed.
 Print Assumptions C15_reachable_views.
+
+(* ... and for every zero-based layout, whatever its strides and nelems (the domain of the earlier,
+   zero-based statements is included). *)
+Theorem C15_zero_based_is_wellformed : forall l, zero_based l -> lwf l.
+Proof. exact zero_based_lwf. Qed.
+Print Assumptions C15_zero_based_is_wellformed.
+
+(* base() of a non-empty view is the address of its first element (all indices at the first index of
+   their extension); origin() lies dotp firsts strides before it -- a different address as soon as an
+   index base is not 0. *)
+Theorem C15_base_is_first_element :
+  forall v, lwf (lay v) -> Forall (fun n => 0 < n) (l_sizes (lay v)) ->
+       v_addr v (firsts (lay v)) = base v
+    /\ v_origin v = v_addr v (firsts (lay v)) - dotp (firsts (lay v)) (l_strides (lay v)).
+Proof. exact C15_base_is_first_element_proved. Qed.
+Print Assumptions C15_base_is_first_element.
 
 (* The calls themselves.  fftw::dft (and dft_forward / dft_backward / the in-place overload / fft::dft_*,
    which all go through it): no FFTW call for an empty input view, otherwise the calls of a plan object;
@@ -66,30 +92,80 @@ Theorem C15_call_shape :
 Proof. exact (fun which vin vout s => conj (fe_dft_call which vin vout s) (fe_plan_execute_call which vin vout s)). Qed.
 Print Assumptions C15_call_shape.
 
-(* Relative to FFTW's contract: the output view holds the direct DFT of the input view along
+(* For non-empty views with any index bases: the pointer arguments of BOTH the planning call and the
+   execute call are the addresses of the FIRST elements of the two views (not their origins), the execute
+   call gets the pointers the plan was made for, and eager dft and plan objects make the same calls. *)
+Theorem C15_call_pointers :
+  forall which vin vout s,
+    lwf (lay vin) -> lwf (lay vout) ->
+    Forall (fun n => 0 < n) (l_sizes (lay vin)) -> l_sizes (lay vout) = l_sizes (lay vin) ->
+    exists g, fe_dft which vin vout s = [EvPlan g; EvExecute (g_in g) (g_out g); EvDestroy]
+      /\ fe_plan_execute which vin vout s = fe_dft which vin vout s
+      /\ g_in g = v_addr vin (firsts (lay vin)) /\ g_out g = v_addr vout (firsts (lay vout))
+      /\ (g_dims g, g_hdims g) = plan_of which (l_sizes (lay vin)) (l_strides (lay vin)) (l_strides (lay vout))
+      /\ g_sign g = s /\ g_flags g = Z.lor FFTW_ESTIMATE FFTW_PRESERVE_INPUT.
+Proof. exact C15_call_pointers_proved. Qed.
+Print Assumptions C15_call_pointers.
+
+(* The planner flags, for EVERY mask, pointer, layout -- hence every size --, sign and flags argument (the
+   parameter is ignored): FFTW_ESTIMATE | FFTW_PRESERVE_INPUT.  By FFTW's documented contract
+   (planning_preserves_arrays, Model/FftwPlan.v) creating the plan does not touch the arrays; an
+   out-of-place execution preserves its input; the plan is not wisdom-only (so it exists). *)
+Theorem C15_planner_flags :
+  forall which bi li bo lo s flags,
+    let g := fftw_plan_dft which bi li bo lo s flags in
+       g_flags g = Z.lor FFTW_ESTIMATE FFTW_PRESERVE_INPUT
+    /\ planning_preserves_arrays (g_flags g) = true
+    /\ Z.testbit (g_flags g) 4 = true
+    /\ planning_needs_wisdom (g_flags g) = false.
+Proof. exact C15_planner_flags_proved. Qed.
+Print Assumptions C15_planner_flags.
+
+(* ... and the flag is needed: with an executor and a planner that meet both contracts (the planner clears
+   the arrays exactly when the flags do not promise otherwise, as FFTW's measuring planner does), the calls
+   the adaptor makes compute the DFT of (3, 5), while the same calls with FFTW_MEASURE | FFTW_PRESERVE_INPUT
+   return zeros and destroy the input -- already for 2 points, i.e. independently of any size threshold. *)
+Theorem C15_planner_flag_needed :
+  let exec := ref_exec Z 0 Z.add Z.mul tw_pm in
+  let planner := ref_plan_effect Z 0 in
+  let vin := root_view [(0,2)] in
+  let vout := mkview (mk_layout [(0,2)]) 10 in
+  let m : mem Z := fun a => if a =? 0 then 3 else if a =? 1 then 5 else 0 in
+     guru_contract Z 0 Z.add Z.mul tw_pm exec /\ plan_contract Z planner
+  /\ (exists m', run_events Z exec planner (fe_dft [true] vin vout (-1)) None m = Some m'
+                 /\ m' 10 = 8 /\ m' 11 = -2 /\ m' 0 = 3 /\ m' 1 = 5)
+  /\ (exists m', run_events Z exec planner
+                   (with_flags (Z.lor FFTW_MEASURE FFTW_PRESERVE_INPUT) (fe_dft [true] vin vout (-1))) None m = Some m'
+                 /\ m' 10 = 0 /\ m' 11 = 0 /\ m' 0 = 0 /\ m' 1 = 0).
+Proof. exact C15_planner_flag_needed_proved. Qed.
+Print Assumptions C15_planner_flag_needed.
+
+(* Relative to FFTW's contracts: the output view holds the direct DFT of the input view along
    exactly the masked dimensions (the others are batches), with the requested sign; nothing outside
-   the output view is modified.  All extents >= 0: no exclusion (an empty view is a no-op since c24dd02). *)
+   the output view is modified.  All extents >= 0, any index bases: no exclusion. *)
 Theorem C15_equals_direct_dft :
   forall (C : Type) (c0 : C) (cadd cmul : C -> C -> C)
-         (tw : Z -> Z -> Z -> C) (fftw_exec : guru_call -> Z -> Z -> mem C -> mem C),
-    guru_contract C c0 cadd cmul tw fftw_exec ->
+         (tw : Z -> Z -> Z -> C) (fftw_exec : guru_call -> Z -> Z -> mem C -> mem C)
+         (fftw_plan_effect : guru_call -> mem C -> mem C),
+    guru_contract C c0 cadd cmul tw fftw_exec -> plan_contract C fftw_plan_effect ->
     forall which vin vout s m,
-      c15_domain which vin vout s ->
-      c15_result C c0 cadd cmul tw which vin vout s m (dft_mem C fftw_exec which vin vout s m).
-Proof. exact C15_equals_direct_dft_proved. Qed.
+      c15_domain_x which vin vout s ->
+      c15_result_x C c0 cadd cmul tw which vin vout s m (dft_mem C fftw_exec fftw_plan_effect which vin vout s m).
+Proof. exact C15_equals_direct_dft_x_proved. Qed.
 Print Assumptions C15_equals_direct_dft.
 
 (* A distinct input is left unchanged. *)
 Theorem C15_input_unchanged :
   forall (C : Type) (c0 : C) (cadd cmul : C -> C -> C)
-         (tw : Z -> Z -> Z -> C) (fftw_exec : guru_call -> Z -> Z -> mem C -> mem C),
-    guru_contract C c0 cadd cmul tw fftw_exec ->
+         (tw : Z -> Z -> Z -> C) (fftw_exec : guru_call -> Z -> Z -> mem C -> mem C)
+         (fftw_plan_effect : guru_call -> mem C -> mem C),
+    guru_contract C c0 cadd cmul tw fftw_exec -> plan_contract C fftw_plan_effect ->
     forall which vin vout s m,
-      c15_domain which vin vout s ->
-      (forall a b, In a (footprint vin) -> In b (footprint vout) -> a <> b) ->
-      exists m', dft_mem C fftw_exec which vin vout s m = Some m' /\
-        forall idx, valid_idx (l_sizes (lay vin)) idx -> m' (v_addr vin idx) = m (v_addr vin idx).
-Proof. exact C15_input_unchanged_proved. Qed.
+      c15_domain_x which vin vout s ->
+      (forall a b, In a (footprint_x vin) -> In b (footprint_x vout) -> a <> b) ->
+      exists m', dft_mem C fftw_exec fftw_plan_effect which vin vout s m = Some m' /\
+        forall idx, in_extl (lay vin) idx -> m' (v_addr vin idx) = m (v_addr vin idx).
+Proof. exact C15_input_unchanged_x_proved. Qed.
 Print Assumptions C15_input_unchanged.
 
 (* Forward followed by backward multiplies every element by the number of transformed points
@@ -98,74 +174,80 @@ Print Assumptions C15_input_unchanged.
 Theorem C15_forward_backward :
   forall (C : Type) (c0 c1 : C) (cadd cmul csub : C -> C -> C) (copp : C -> C),
     ring_theory c0 c1 cadd cmul csub copp eq ->
-  forall (tw : Z -> Z -> Z -> C) (fftw_exec : guru_call -> Z -> Z -> mem C -> mem C),
-    guru_contract C c0 cadd cmul tw fftw_exec ->
+  forall (tw : Z -> Z -> Z -> C) (fftw_exec : guru_call -> Z -> Z -> mem C -> mem C)
+         (fftw_plan_effect : guru_call -> mem C -> mem C),
+    guru_contract C c0 cadd cmul tw fftw_exec -> plan_contract C fftw_plan_effect ->
     forall which vin vout v3 s m,
-      c15_domain which vin vout s -> c15_domain which vout v3 (- s) ->
+      c15_domain_x which vin vout s -> c15_domain_x which vout v3 (- s) ->
       Forall (tw_orthogonal_at C c0 c1 cadd cmul tw s) (select which (l_sizes (lay vin))) ->
-      exists m1 m2, dft_mem C fftw_exec which vin vout s m = Some m1
-                 /\ dft_mem C fftw_exec which vout v3 (- s) m1 = Some m2
-                 /\ forall idx, valid_idx (l_sizes (lay vin)) idx ->
+      exists m1 m2, dft_mem C fftw_exec fftw_plan_effect which vin vout s m = Some m1
+                 /\ dft_mem C fftw_exec fftw_plan_effect which vout v3 (- s) m1 = Some m2
+                 /\ forall idx, in_extl (lay vin) idx ->
                       m2 (v_addr v3 idx) = cmul (zc C c0 c1 cadd (npoints which (l_sizes (lay vin)))) (m (v_addr vin idx)).
-Proof. exact C15_forward_backward_proved. Qed.
+Proof. exact C15_forward_backward_x_proved. Qed.
 Print Assumptions C15_forward_backward.
 
 (* Explicit plan objects (plan::forward/backward(...).execute(...)) keep FFTW's own domain: the same
    result under no_empty_transform ... *)
 Theorem C15_plan_object :
   forall (C : Type) (c0 : C) (cadd cmul : C -> C -> C)
-         (tw : Z -> Z -> Z -> C) (fftw_exec : guru_call -> Z -> Z -> mem C -> mem C),
-    guru_contract C c0 cadd cmul tw fftw_exec ->
+         (tw : Z -> Z -> Z -> C) (fftw_exec : guru_call -> Z -> Z -> mem C -> mem C)
+         (fftw_plan_effect : guru_call -> mem C -> mem C),
+    guru_contract C c0 cadd cmul tw fftw_exec -> plan_contract C fftw_plan_effect ->
     forall which vin vout s m,
-      c15_domain which vin vout s -> no_empty_transform which vin ->
-      c15_result C c0 cadd cmul tw which vin vout s m (plan_mem C fftw_exec which vin vout s m).
-Proof. exact C15_plan_object_proved. Qed.
+      c15_domain_x which vin vout s -> no_empty_transform which vin ->
+      c15_result_x C c0 cadd cmul tw which vin vout s m (plan_mem C fftw_exec fftw_plan_effect which vin vout s m).
+Proof. exact C15_plan_object_x_proved. Qed.
 Print Assumptions C15_plan_object.
 
 (* ... and the exclusion is needed there: with an empty transformed dimension FFTW returns a NULL plan, on
    which the plan constructor asserts (fftw.hpp:318, :415 -- the precondition of that interface). *)
 Theorem C15_plan_object_needs_nonempty_transform :
-  forall (C : Type) (fftw_exec : guru_call -> Z -> Z -> mem C -> mem C),
-    exists which v, c15_domain which v v (-1) /\ ~ no_empty_transform which v
-                    /\ forall m, plan_mem C fftw_exec which v v (-1) m = None.
-Proof. exact C15_plan_object_needs_nonempty_transform_proved. Qed.
+  forall (C : Type) (fftw_exec : guru_call -> Z -> Z -> mem C -> mem C) (fftw_plan_effect : guru_call -> mem C -> mem C),
+    exists which v, c15_domain_x which v v (-1) /\ ~ no_empty_transform which v
+                    /\ forall m, plan_mem C fftw_exec fftw_plan_effect which v v (-1) m = None.
+Proof. exact C15_plan_object_needs_nonempty_transform_x_proved. Qed.
 Print Assumptions C15_plan_object_needs_nonempty_transform.
 
-(* The contract is satisfiable: the reference executor meets it, for every ring and every tw. *)
+(* The contracts are satisfiable: the reference executor meets guru_contract for every ring and every tw,
+   the reference planner (which does clear the arrays when the flags allow it) meets plan_contract. *)
 Theorem C15_contract_satisfiable :
   forall (C : Type) (c0 : C) (cadd cmul : C -> C -> C) (tw : Z -> Z -> Z -> C),
-    guru_contract C c0 cadd cmul tw (ref_exec C c0 cadd cmul tw).
-Proof. exact ref_exec_meets_contract. Qed.
+    guru_contract C c0 cadd cmul tw (ref_exec C c0 cadd cmul tw) /\ plan_contract C (ref_plan_effect C c0).
+Proof. exact (fun C c0 cadd cmul tw => conj (ref_exec_meets_contract C c0 cadd cmul tw) (ref_plan_meets_contract C c0)). Qed.
 Print Assumptions C15_contract_satisfiable.
 
-(* The lazy form  out = multi::fft::dft(which, in, dir)  of adaptors/fft.hpp (dft_range): where the
-   iterator-pair constructor it uses reproduces the operands it makes exactly the FFTW calls of
+(* The lazy form  out = multi::fft::dft(which, in, dir)  of adaptors/fft.hpp (dft_range): where the leading
+   dimension of both operands holds `count` whole strides -- whatever their index bases -- the iterator-pair
+   constructor it uses changes the leading offset only, and it makes exactly the FFTW calls of
    dft(which, in, out, dir) ... *)
 Theorem C15_lazy_range :
   forall which vin vout s,
-    iter_pair_okb (l_size (lay vin)) vin = true -> iter_pair_okb (l_size (lay vin)) vout = true ->
+    iter_pair_sizeb (l_size (lay vin)) vin = true -> iter_pair_sizeb (l_size (lay vin)) vout = true ->
     fe_fft_range which vin vout s = fe_dft which vin vout s.
-Proof. exact C15_lazy_range_proved. Qed.
+Proof. exact C15_lazy_range_x_proved. Qed.
 Print Assumptions C15_lazy_range.
 
-(* ... which is the case for row-major arrays of EVERY rank and all positive sizes (since a7e1e64; before,
-   only for rank 2) ... *)
+(* ... which is the case for row-major arrays of EVERY rank over ANY index extensions with positive sizes
+   (since a7e1e64; before, only for rank 2) ... *)
 Theorem C15_lazy_range_arrays :
-  forall sz which s bi bo, Forall (fun n => 0 < n) sz ->
-    let vin := mkview (mk_layout (zb sz)) bi in
-    let vout := mkview (mk_layout (zb sz)) bo in
+  forall xi xo which s bi bo,
+    Forall (fun r => fst r < snd r) xi -> map r_size xo = map r_size xi ->
+    let vin := mkview (mk_layout xi) bi in
+    let vout := mkview (mk_layout xo) bo in
     fe_fft_range which vin vout s = fe_dft which vin vout s.
-Proof. exact C15_lazy_range_arrays_proved. Qed.
+Proof. exact C15_lazy_range_arrays_x_proved. Qed.
 Print Assumptions C15_lazy_range_arrays.
 
 (* ... so that the lazy form computes the direct DFT as well. *)
 Theorem C15_lazy_range_equals_direct_dft :
   forall (C : Type) (c0 : C) (cadd cmul : C -> C -> C)
-         (tw : Z -> Z -> Z -> C) (fftw_exec : guru_call -> Z -> Z -> mem C -> mem C),
-    guru_contract C c0 cadd cmul tw fftw_exec ->
+         (tw : Z -> Z -> Z -> C) (fftw_exec : guru_call -> Z -> Z -> mem C -> mem C)
+         (fftw_plan_effect : guru_call -> mem C -> mem C),
+    guru_contract C c0 cadd cmul tw fftw_exec -> plan_contract C fftw_plan_effect ->
     forall which vin vout s m,
-      c15_domain which vin vout s ->
-      iter_pair_okb (l_size (lay vin)) vin = true -> iter_pair_okb (l_size (lay vin)) vout = true ->
-      c15_result C c0 cadd cmul tw which vin vout s m (fft_range_mem C fftw_exec which vin vout s m).
-Proof. exact C15_lazy_range_equals_direct_dft_proved. Qed.
+      c15_domain_x which vin vout s ->
+      iter_pair_sizeb (l_size (lay vin)) vin = true -> iter_pair_sizeb (l_size (lay vin)) vout = true ->
+      c15_result_x C c0 cadd cmul tw which vin vout s m (fft_range_mem C fftw_exec fftw_plan_effect which vin vout s m).
+Proof. exact C15_lazy_range_equals_direct_dft_x_proved. Qed.
 Print Assumptions C15_lazy_range_equals_direct_dft.
